@@ -238,6 +238,19 @@ def c19_jobs(tier, seed):
                          "switches": "sweepab", "pattern": "late_rebuild", "limit": (30 if not thorough else 1200), "offset": sh * 97 + seed, **s})
             jobs.append({"id": f"C19-w1-{name}-line{sh}", "world": wo, "scenario": name, "after": probes, "granularity": "line",
                          "switches": "sweep1", "limit": (15 if not thorough else 400), "offset": sh * 5 + seed, **s})
+    # the same races when every caller first reads the function's signature (an overloaded function handed to a
+    # Callable[[...], ...] parameter of another one is inspected on every call)
+    w, probes = W1()
+    wp = dict(w, peek=True)
+    a, b = probes[0], probes[1]
+    for name, s in {"peek_first_diff": dict(threads={"A": a, "B": b}, warm=[]), "peek_first_same": dict(threads={"A": a, "B": a}, warm=[]),
+                    "peek_warm": dict(threads={"A": a, "B": b}, warm=[a, b])}.items():
+        jobs.append({"id": f"C19-w1-{name}-hook", "world": wp, "scenario": name, "after": probes, "granularity": "hook", "switches": "sweep1", **s})
+        for sh in range(4 if not thorough else 16):
+            jobs.append({"id": f"C19-w1-{name}-line{sh}", "world": wp, "scenario": name, "after": probes, "granularity": "line",
+                         "switches": "sweep1", "limit": (40 if not thorough else 600), "offset": sh * 5 + seed, **s})
+            jobs.append({"id": f"C19-w1-{name}-lineab{sh}", "world": wp, "scenario": name, "after": probes, "granularity": "line",
+                         "switches": "sweepab", "limit": (40 if not thorough else 1200), "offset": sh * 101 + seed, **s})
     # racing calls that differ in the optional keywords they supply, on a function that is built and warm
     w, probes = W5()
     pairs = {"kw_kj": (probes[0], probes[1]), "kw_none": (probes[0], probes[2]), "kw_both": (probes[3], probes[1])}
